@@ -604,8 +604,12 @@ class C09(Prop):
                         return {"kind": "image-lost", "observed": ctx, "required": "loads (returned or raised) keeps the images already present"}
                     if st["res"] != "ok":
                         # what a refused loads may leave in the header: the document's version or the one before; never reset
-                        if st["version"] not in (dv, st["version_before"]):
-                            return {"kind": "header-after-failed-load", "observed": ctx, "required": "document's header.version or the previous one"}
+                        # (C09_failed_load_version: the gate the caller is left with is the one the partial content was filed under)
+                        has_ver = isinstance(o[1], dict) and isinstance(o[1].get("header"), dict) and "version" in o[1]["header"]
+                        want_ver = dv if has_ver else st["version_before"]
+                        if st["version"] != want_ver:
+                            return {"kind": "header-after-failed-load", "observed": dict(ctx, header_required=want_ver),
+                                    "required": "the document's header.version when it has one (assigned first, validated or not), else the previous header"}
                         if vp is None and st["cells"] != prev:
                             return {"kind": "images-filed-under-unreadable-header", "observed": ctx, "required": "no image filed when the header is refused"}
                 if step_enforces:
@@ -714,6 +718,6 @@ PROP = C09()
 
 MANIFEST = dict(
     technique="Lean 4 proof over an executable model of Images.add that RUNS THE STATEMENT LIST READ FROM THE SOURCE (tools/gen_images.py) with the generated identity tuple and version gate: invariant by induction over unbounded histories and over the loops of the reader; refusal-changes-nothing from the order of effects; differential check of every step against the real library + Uniq oracle written independently of identify_image",
-    text="C09_tuple (decide): the code's identity tuple is the documented seven attributes. C09_script (decide on the regenerated statement list): nothing that can raise follows the insertion, the insertion follows the scan. C09_step / C09_reachable / C09_reachable_from: for any header version on which the generated gate (>= 1.1) is on, any history of adds of any length keeps Uniq. C09_refusal: a raising add returns the identical state (any version); C09_refusal_class: it is ValueError; C09_accepts: no spurious refusal. C09_load: every manifest deserialised from a >= 1.1 document is Uniq; C09_load_rejects: a document of any enforcing version (1.1 with its src re-filing included; entries under a src key of a <= 1.1 document excepted, they are re-filed or dropped) containing a colliding pair is rejected. C09_identity: identify(object) = identify(serialised dict) for every image that validates. C09_below_witness: under 0.0 / 1.0 a colliding pair is accepted (F11). Gate-crossing histories (the version is state: dumps sets it, loads replaces it, callers assign it): C09_no_new_pair / C09_add_guard - for ANY state, an add at an enforcing version creates no new colliding pair and an accepted one collides with nothing present; C09_dumps_enforces; C09_history_pairs / C09_history - any sequence of add / dumps / set-version / loads-into-the-same-object whose adds and loads happen at enforcing versions creates no new pair, hence keeps Uniq; C09_load_into; C09_cross_witness (add, dumps, colliding add -> ValueError).",
+    text="C09_tuple (decide): the code's identity tuple is the documented seven attributes. C09_script (decide on the regenerated statement list): nothing that can raise follows the insertion, the insertion follows the scan. C09_step / C09_reachable / C09_reachable_from: for any header version on which the generated gate (>= 1.1) is on, any history of adds of any length keeps Uniq. C09_refusal: a raising add returns the identical state (any version); C09_refusal_class: it is ValueError; C09_accepts: no spurious refusal. C09_load: every manifest deserialised from a >= 1.1 document is Uniq; C09_load_rejects: a document of any enforcing version (1.1 with its src re-filing included; entries under a src key of a <= 1.1 document excepted, they are re-filed or dropped) containing a colliding pair is rejected. C09_identity: identify(object) = identify(serialised dict) for every image that validates. C09_below_witness: under 0.0 / 1.0 a colliding pair is accepted (F11). Gate-crossing histories (the version is state: dumps sets it, loads replaces it, callers assign it): C09_no_new_pair / C09_add_guard - for ANY state, an add at an enforcing version creates no new colliding pair and an accepted one collides with nothing present; C09_dumps_enforces; C09_history_pairs / C09_history - any sequence of add / dumps / set-version / loads-into-the-same-object whose adds and loads happen at enforcing versions creates no new pair, hence keeps Uniq; C09_load_into; C09_cross_witness (add, dumps, colliding add -> ValueError). A REFUSED loads is a step like any other (Img.loadsInto returns the object the exception leaves: header.version assigned first, compose fields as far as assigned, images filed before the offending entry kept, nothing cleared): C09_failed_load_pairs / C09_failed_load_invariant - under a document header that enforces the scan the object left behind has no new colliding pair, hence stays Uniq; C09_failed_load_version / C09_failed_load_gate / C09_load_version_ok / C09_failed_header_cells - which header the call leaves (the document's, never reset; current only on return) and that an unreadable header files nothing; C09_history_total(_pairs) - any history of add / refused add / dumps / set-version / returned or RAISED loads / discard / del whose adds and loads run at enforcing versions keeps Uniq; C09_failed_load_witness (partial content kept, gate kept at 1.1/1.2); C09_failed_load_below_witness + C09_ok_load_below_contrast - a refused loads of a 1.0 document leaves header 1.0 on an object that was at 1.2: its colliding first entry stays and later colliding adds are accepted (finding candidate, reproduced on the library).",
     note="Mutating an Image after it was filed is outside the property's quantifier (histories of add calls / loaded files).",
     ref="7/C09")
